@@ -424,3 +424,82 @@ Proof.
   eapply foldM_inv; [| |exact E]; [intros; eapply (pres_router ni_wf (fun t => t = NRouter)); eauto|].
   split; [intros n []|reflexivity].
 Qed.
+
+(* ------------------------------------------------------------------ interfaces belong to a descriptor *)
+Definition arr_opts (e : ep_desc) : list (option (list Z)) :=
+  match ep_array e with None => [None] | Some arr => map Some (ep_indices arr) end.
+
+Lemma endpoint_nodes g e g' : create_endpoint g e = Ok g' ->
+  g_nodes g' = (g_nodes g ++ map (mk_ep_node (ep_name e)) (arr_opts e)) ++ map (mk_ni_node (ep_name e)) (arr_opts e).
+Proof.
+  intros H. unfold create_endpoint in H. cbv zeta in H. unfold arr_opts. destruct (ep_array e) as [arr|].
+  - inv_bind H. apply array_nodes in E. apply array_nodes in E0. destruct E as (N1 & _). destruct E0 as (N2 & _).
+    assert (N3 : g_nodes a1 = g_nodes a0).
+    { destruct (ep_is_sbr e); [|inversion E1; subst; reflexivity]. apply prot_edges_nodes in E1. exact E1. }
+    assert (N4 : g_nodes g' = g_nodes a1).
+    { destruct (ep_is_mgr e); [|inversion H; subst; reflexivity]. apply prot_edges_nodes in H. exact H. }
+    rewrite N4, N3, N2, N1, !map_map. reflexivity.
+  - inv_bind H.
+    assert (N3 : g_nodes a1 = g_nodes a0).
+    { destruct (ep_is_sbr e); [|inversion E1; subst; reflexivity]. apply add_edge_spec in E1. destruct E1 as (-> & _). reflexivity. }
+    assert (N4 : g_nodes g' = g_nodes a1).
+    { destruct (ep_is_mgr e); [|inversion H; subst; reflexivity]. apply add_edge_spec in H. destruct H as (-> & _). reflexivity. }
+    rewrite N4, N3. unfold add_node in E, E0. destruct (has_node g _); [discriminate|]. inversion E; subst a; clear E.
+    cbn in E0. destruct (has_node _ _); [discriminate|]. inversion E0; subst a0. cbn. reflexivity.
+Qed.
+
+Lemma foldM_inv_in {A S} (P : S -> Prop) (f : S -> A -> res S) l :
+  (forall s x s', In x l -> P s -> f s x = Ok s' -> P s') ->
+  forall s s', P s -> foldM f l s = Ok s' -> P s'.
+Proof.
+  induction l as [|x xs IH]; intros Hf s s' Hs H; cbn [foldM] in H.
+  - inversion H; subst; exact Hs.
+  - inv_bind H. eapply IH; [intros; eapply Hf; eauto; right; assumption| |exact H]. eapply Hf; eauto. left. reflexivity.
+Qed.
+
+Definition ni_of_desc (d : desc) (g : graph) : Prop :=
+  forall n, In n (g_nodes g) -> n_type n = NNi ->
+    exists e, In e (d_eps d) /\ ep_name e = n_desc n /\ In (n_arr n) (arr_opts e).
+
+Theorem build_ni_of_desc d g : build d = Ok g -> ni_of_desc d g.
+Proof.
+  intros H. unfold build in H. inv_bind H.
+  assert (Same : forall g0 g1, g_nodes g1 = g_nodes g0 -> ni_of_desc d g0 -> ni_of_desc d g1).
+  { intros g0 g1 Hn Hw n Hin. rewrite Hn in Hin. auto. }
+  assert (Pn : forall g0 n g', ni_of_desc d g0 -> n_type n = NRouter -> add_node g0 n = Ok g' -> ni_of_desc d g').
+  { intros g0 n g' Hw Ht Ha. unfold add_node in Ha. destruct (has_node g0 _); [discriminate|]. inversion Ha; subst.
+    intros x Hin Hx. cbn in Hin. apply in_app_iff in Hin. destruct Hin as [Hin|[<-|[]]]; [auto|congruence]. }
+  assert (Pe : forall g0 e g', ni_of_desc d g0 -> add_edge g0 e = Ok g' -> ni_of_desc d g').
+  { intros g0 e g' Hw Ha. apply add_edge_spec in Ha. destruct Ha as (-> & _). eapply Same; [|exact Hw]. reflexivity. }
+  eapply foldM_inv; [| |exact H]; [intros; eapply (pres_connection (ni_of_desc d)); eauto|].
+  eapply foldM_inv_in; [| |exact E0].
+  - intros s e s' He Hs Hc. apply endpoint_nodes in Hc. intros n Hin Ht. rewrite Hc in Hin.
+    rewrite !in_app_iff in Hin. destruct Hin as [[Hin|Hin]|Hin].
+    + auto.
+    + apply in_map_iff in Hin. destruct Hin as (x & <- & _). discriminate.
+    + apply in_map_iff in Hin. destruct Hin as (x & <- & Hx). exists e. cbn. auto.
+  - eapply foldM_inv; [| |exact E]; [intros; eapply (pres_router (ni_of_desc d) (fun t => t = NRouter)); eauto|].
+    intros n [].
+Qed.
+
+(* index bounds of array elements *)
+Lemma zcount_In k : forall c x, In x (zcount k c 1) <-> c <= x < c + Z.of_nat k.
+Proof.
+  induction k as [|k IH]; intros c x; cbn [zcount]; [cbn; lia|].
+  cbn [In]. rewrite IH. lia.
+Qed.
+Lemma zrange0_In n x : In x (zrange0 n) <-> 0 <= x < n.
+Proof. unfold zrange0. rewrite zcount_In. lia. Qed.
+
+Lemma ep_indices_bounds arr idx : In idx (ep_indices arr) ->
+  match arr, idx with
+  | [n], [i] => 0 <= i < n
+  | [m; n], [x; y] => 0 <= x < m /\ 0 <= y < n
+  | _, _ => False
+  end.
+Proof.
+  unfold ep_indices. destruct arr as [|m [|n [|? ?]]]; try (intros []).
+  - intros H. apply in_map_iff in H. destruct H as (i & <- & Hi). apply zrange0_In in Hi. exact Hi.
+  - intros H. apply in_flat_map in H. destruct H as (x & Hx & Hy). apply in_map_iff in Hy. destruct Hy as (y & <- & Hy).
+    apply zrange0_In in Hx. apply zrange0_In in Hy. auto.
+Qed.
